@@ -191,6 +191,10 @@ def run(pid, tier, seed):
         ("LP", "Minimize\n obj: x\nSubject To\n c1: x >= 1\nBounds\n x"),
         ("LP", "Minimize\n obj: x\nSubject To\n c1: x >= 1\nGeneral\n x"),
         ("LP", "Minimize\n obj: x\nSubject To\n c1"),
+        ("MPS", "NAME    P\nROWS\n N  obj\n G  R1\n G  r2"),
+        ("MPS", "NAME    P\nROWS\n N  obj\n G  R1\nCOLUMNS\n x obj 1 R1 1"),
+        ("MPS", "NAME    P\nROWS\n N  obj\n G  R1\nCOLUMNS\n x obj 1 R1 1\nRHS\n rhs R1 4\nBOUNDS\n UP bnd x"),
+        ("MPS", "NAME    P\nROWS\n N  obj\n G  R1\nCOLUMNS\n x obj 1 R1 1\nRHS\n rhs R1 4\nRANGES\n rng R1"),
     ]
     for k, (fmt, text) in enumerate(HAND):
         cases.append(("handmade", fmt, "h%d.%s" % (k, fmt.lower()), text.encode("latin-1")))
